@@ -327,6 +327,45 @@ def originate (fuel : Nat) (net : List (Node A)) (from_ target : Nat) (c : Cell)
       let (net', evs, fin) := run fuel (putNode net nd') tgt from_ c'
       (net', ⟨from_, tgt, c'⟩ :: evs, fin)
 
+/-! ### where `TunnelCommunity.on_data` hands a decrypted DATA payload (community.py `on_data`)
+
+The decision "is this end-to-end data" is taken from the **circuit type** (`circuit.ctype ∈ {RP_DOWNLOADER, RP_SEEDER}`),
+not from the `circuit.e2e` flag (which only the downloader side ever sets). -/
+
+/-- `DataChecker.could_be_ipv8` -/
+def couldBeIpv8 (d : Bytes) : Bool :=
+  decide (23 ≤ d.length) && (d.head? == some 0) && (d[1]? == some 1 || d[1]? == some 2)
+
+def isE2EType : CType → Bool
+  | .rpDownloader => true
+  | .rpSeeder => true
+  | _ => false
+
+inductive Sink
+  | raw                 -- on_raw_data(circuit, origin, data)
+  | ownPacket           -- on_packet_from_circuit(origin, data, circuit_id): IPv8 packet of the tunnel community itself
+  | otherCommunity      -- endpoint.notify_listeners((origin, data), from_tunnel=True)
+  | droppedNoTunnelEndpoint
+  | exitSocket          -- exit_data(...)
+  | droppedZeroDest
+  deriving DecidableEq, Repr
+
+/-- `own` = type of the receiving node's own circuit with that id (if any); `originSet` = truthiness of the origin
+    address; `fromFirstHop` = `sock_addr == circuit.hop.address`; `pfx` = the community prefix;
+    `tunnelEp` = the endpoint is a `TunnelEndpoint`; `destZero` = destination is 0.0.0.0:0 -/
+def onDataSink (own : Option CType) (originSet fromFirstHop : Bool) (pfx : Bytes) (tunnelEp destZero : Bool)
+    (data : Bytes) : Sink :=
+  let exitBranch : Sink := if destZero then .droppedZeroDest else .exitSocket
+  match own with
+  | some ct =>
+    if originSet && fromFirstHop then
+      if couldBeIpv8 data && !isE2EType ct then
+        if data.take 22 == pfx then .ownPacket
+        else if tunnelEp then .otherCommunity else .droppedNoTunnelEndpoint
+      else .raw
+    else exitBranch
+  | none => exitBranch
+
 end
 
 /-! ### the toy AEAD: 1 nonce byte, key byte, direction byte, 21 zero bytes, then the message in clear.
